@@ -2555,6 +2555,9 @@ SNOW3G_F8_4_BUFFER(const snow3g_key_schedule_t *pHandle, const void *pIV1, const
                         continue;
                 snow3gStateConvert_4(&ctx, &ctx_t, i);
                 f8_snow3g(&ctx_t, pBufferIn[i], pBufferOut[i], lenInBytes[i]);
+#ifdef SAFE_DATA
+                CLEAR_MEM(&ctx_t, sizeof(ctx_t));
+#endif /* SAFE_DATA */
         }
 
 #ifdef SAFE_DATA
@@ -2683,6 +2686,9 @@ snow3g_8_buffer_ks_32_8_multi(const snow3g_key_schedule_t *const pKey[], const v
 
                 snow3gStateConvert_8(&ctx, &t_ctx, i);
                 f8_snow3g(&t_ctx, tBufferIn[i], tBufferOut[i], tLenInBytes[i]);
+#ifdef SAFE_DATA
+                CLEAR_MEM(&t_ctx, sizeof(t_ctx));
+#endif /* SAFE_DATA */
         }
 
 #ifdef SAFE_DATA
@@ -2795,6 +2801,9 @@ snow3g_8_buffer_ks_32_8(const snow3g_key_schedule_t *pKey, const void *const IV[
 
                 snow3gStateConvert_8(&ctx, &ctx_t, i);
                 f8_snow3g(&ctx_t, pBufferIn[i], pBufferOut[i], lengthInBytes[i]);
+#ifdef SAFE_DATA
+                CLEAR_MEM(&ctx_t, sizeof(ctx_t));
+#endif /* SAFE_DATA */
         }
 
 #ifdef SAFE_DATA
